@@ -249,7 +249,7 @@ func evalC15TW(limit int, ws string) Result {
 }
 
 func genC15(rng *rand.Rand, tier string) (cases []string) {
-	n := 3000
+	n := 8000
 	if tier == "thorough" {
 		n = 200000
 	}
